@@ -74,6 +74,7 @@ type owCase struct {
 	mixedWidths                                      bool
 	confluence                                       bool
 	dir                                              string
+	nameStyle                                        int // layout of the /META/models strings
 	rolling                                          bool // -final-states names the file the initial states come from
 }
 
@@ -290,6 +291,8 @@ func drawOwCase(w *simrt.Tape) *owCase {
 		c.flags.InputsFor = pick()
 		c.flags.NoOutputsFor = pick()
 	}
+	c.flags.Verbose = w.Bool(15) // -v: more log output, the same results
+	c.nameStyle = []int{0, 0, 0, 1, 2}[w.Choose(5)]
 	c.paramFile, c.stateFile, c.tsFile = c.in, c.in, c.in
 	if w.Bool(20) {
 		c.paramFile = dir + "params.h5"
@@ -331,7 +334,27 @@ func (c *owCase) buildFiles() {
 	for _, m := range c.models {
 		names = append(names, m.name)
 	}
-	hdf5.PutStrings(c.in, "/META/models", names, 64)
+	// the names are NUL-terminated fixed-width strings: the field is 64 bytes wide, or just wide
+	// enough (the longest name then fills it without a terminator); the bytes after a terminator
+	// are zeros, or left-overs of an earlier use of the buffer
+	width := 64
+	raw := append([]string(nil), names...)
+	switch c.nameStyle {
+	case 1:
+		width = 0
+		for _, n := range names {
+			if len(n) > width {
+				width = len(n)
+			}
+		}
+	case 2:
+		for i, n := range raw {
+			if len(n)+3 < width {
+				raw[i] = n + "\x00ngFactor~"[:2+len(n)%9]
+			}
+		}
+	}
+	hdf5.PutStrings(c.in, "/META/models", raw, width)
 	hdf5.MakeGroup(c.in, "/DIMENSIONS")
 	lv := make([]uint32, 0, len(c.links)*10)
 	for _, l := range c.links {
@@ -914,7 +937,7 @@ func engineOwSimSplit(rc *RunCtx) *Outcome {
 	build("/sim/second.h5", cut, c.T)
 	// the first part may be run without the time series of some models (-no-outputs-for /
 	// -no-inputs-for): what the second part starts from is the final states, which are always due
-	firstFlags := owsim.VerifFlagSet{FinalStates: "/sim/states-after-first.h5"}
+	firstFlags := owsim.VerifFlagSet{FinalStates: "/sim/states-after-first.h5", Verbose: w.Bool(25)}
 	skipFirst := map[string]bool{}
 	if w.Bool(40) {
 		var noOut, noIn []string
